@@ -81,7 +81,8 @@ pub struct Req {
 pub fn model_conn_variants(reqs: &[Req], cfg: &ServerCfg, ambiguous: &[usize]) -> Vec<ConnExpect> {
     // every combination of readings of the ambiguous messages (there are few of them)
     let mut variants: Vec<Vec<Req>> = vec![reqs.to_vec()];
-    for &i in ambiguous.iter().take(3) {
+    assert!(ambiguous.len() <= 2, "the generator limits ambiguous messages per connection");
+    for &i in ambiguous.iter() {
         if i >= reqs.len() {
             continue;
         }
